@@ -98,6 +98,9 @@ impl Game {
                     if row == 0 {
                         bail!("Too many rows");
                     }
+                    if col != 8 {
+                        bail!("Invalid row width");
+                    }
                     col = 0;
                     row -= 1;
                 }
@@ -123,6 +126,9 @@ impl Game {
                 }
                 empty_count if character.is_ascii_digit() => {
                     let count = (empty_count as u8 - b'0') as i8;
+                    if count == 0 || col + count > 8 {
+                        bail!("Invalid empty square count");
+                    }
                     for i in 0..count {
                         let position = Position::new_assert(row, col + i);
                         past_hashes[position.as_usize()] = zobrist::EMPTY_PLACE;
@@ -176,6 +182,9 @@ impl Game {
 
         if en_passant != "-" {
             let col = en_passant.chars().nth(0).unwrap();
+            if !('a'..='h').contains(&col) {
+                bail!("Invalid en passant square");
+            }
             state.set_en_passant(((col as u8) - b'a') as i8);
             if !(0..8).contains(&state.en_passant()) {
                 bail!("Invalid en passant square");
